@@ -42,7 +42,8 @@ def _observe_hook(s, disp):
 
     def position_cursor():
         shp = lr._shape
-        s.events.append((s.me().tid if s.me() else -1, "hook", -1 if shp is None else shp[1]))
+        me = s.me().tid if s.me() else -1
+        s.events.append((me, "hookcap" if me in s.capturing else "hook", -1 if shp is None else shp[1]))
         return orig()
     lr.position_cursor = position_cursor
 
@@ -52,6 +53,7 @@ def run_program(prog, strategy, trace=False, tick_budget=2):
     Ops: print(id,n) log(id) capture(id,n) update(v,h) refresh advance start stop."""
     files = ("rich/console.py", "rich/live.py", "rich/live_render.py", "rich/progress.py", "rich/file_proxy.py") if trace else ()
     s = dsched.Scheduler(strategy, trace_files=files, tick_budget=tick_budget, max_steps=300000)
+    s.capturing = set()          # worker numbers currently inside a capture block
     calls, rec_labels, final_frame = [], [], []
     live_on = prog["display"] != "none"
     with instrument.Patched(s):
@@ -78,6 +80,13 @@ def run_program(prog, strategy, trace=False, tick_budget=2):
             state["tasks"] = [disp.add_task(label_text(F(1, 1))), disp.add_task(label_text(F(2, 1)))]
             _observe_hook(s, disp)
 
+        def cap_end(tn):
+            # the region height the display remembers when the capture block ends (a captured print runs the display's hook
+            # and may change it although nothing was drawn)
+            if disp is not None:
+                shp = disp._live_render._shape
+                s.events.append((tn, "capend", -1 if shp is None else shp[1]))
+
         def mk(tn, ops):
             def fn():
                 for op in ops:
@@ -93,8 +102,13 @@ def run_program(prog, strategy, trace=False, tick_budget=2):
                         labels = [P(op["id"], i) for i in range(1, op["n"] + 1)]
                         c = dict(kind="capture", t=tn, labels=labels, captured=[])
                         calls.append(c)
-                        with console.capture() as cap:
-                            console.print("\n".join(label_text(x) for x in labels))
+                        s.capturing.add(s.me().tid)
+                        try:
+                            with console.capture() as cap:
+                                console.print("\n".join(label_text(x) for x in labels))
+                        finally:
+                            s.capturing.discard(s.me().tid)
+                            cap_end(s.me().tid)
                         c["captured"] = labels_in(cap.get())
                     elif k == "bufcapture":
                         # a capture begun while the thread already has pending (buffered) output
@@ -105,8 +119,13 @@ def run_program(prog, strategy, trace=False, tick_budget=2):
                         calls.append(c)
                         with console:
                             console.print(label_text(la[0]))
-                            with console.capture() as cap:
-                                console.print("\n".join(label_text(x) for x in lb))
+                            s.capturing.add(s.me().tid)
+                            try:
+                                with console.capture() as cap:
+                                    console.print("\n".join(label_text(x) for x in lb))
+                            finally:
+                                s.capturing.discard(s.me().tid)
+                                cap_end(s.me().tid)
                             c["captured"] = labels_in(cap.get())
                     elif k == "export":
                         (console.export_html if op.get("html") else console.export_text)(clear=False)
@@ -154,8 +173,10 @@ def run_program(prog, strategy, trace=False, tick_budget=2):
     for ev in s.events:
         if ev[1] == "write":
             events.append(dict(e="write", t=ev[0], ops=lex(ev[2])))
-        elif ev[1] == "hook":
-            events.append(dict(e="hook", t=ev[0], h=ev[2], ops=[]))
+        elif ev[1] in ("hook", "hookcap"):
+            events.append(dict(e="hook", t=ev[0], h=ev[2], cap=ev[1] == "hookcap", ops=[]))
+        elif ev[1] == "capend":
+            events.append(dict(e="capend", t=ev[0], h=ev[2], ops=[]))
     return dict(calls=calls, events=events, rec=rec_labels, live=live_on, finalframe=final_frame, deadlock=bool(s.deadlock),
                 startstop=bool(prog.get("startstop")),
                 exc=exc, choices=list(s.choices), steps=s.steps, deadlock_info=repr(s.deadlock) if s.deadlock else "")
@@ -281,7 +302,7 @@ def run(chk: Check):
     for (payload, rec), v in zip(uniq, verdicts):
         if v != "ok":
             kinds = sorted({op["k"] for ops in payload["program"]["threads"] for op in ops})
-            chk.reject("%s display=%s" % (v, payload["program"]["display"]), v + " " + rec.get("deadlock_info", "") + " ops=" + "+".join(kinds), payload)
+            chk.reject("%s display=%s%s" % (v, payload["program"]["display"], " startstop" if payload["program"].get("startstop") else ""), v + " " + rec.get("deadlock_info", "") + " ops=" + "+".join(kinds), payload)
     if uniq:
         p, r = uniq[-1]
         chk.sample(dict(program=p["program"], schedule=r["choices"][:50], writes=[(e["t"], len(e["ops"])) for e in r["events"] if e["e"] == "write"]))
